@@ -4,6 +4,7 @@ package vstream
 
 import (
 	"errors"
+	"io"
 
 	"github.com/talostrading/sonic"
 	"github.com/talostrading/sonic/sonicerrors"
@@ -75,7 +76,8 @@ func (s *Stream) take(b []byte) int {
 func (s *Stream) Read(b []byte) (int, error) {
 	s.Reads++
 	if len(b) == 0 {
-		return 0, nil
+		// like sonic's file/conn: read(2) into an empty buffer returns 0, which they report as io.EOF
+		return 0, io.EOF
 	}
 	if len(s.In) > 0 {
 		return s.take(b), nil
@@ -120,7 +122,7 @@ func (s *Stream) asyncRead(b []byte, all bool, cb sonic.AsyncCallback) {
 		s.Overlap = "read"
 	}
 	if len(b) == 0 {
-		cb(nil, 0)
+		cb(io.EOF, 0)
 		return
 	}
 	s.PendingRead = &pendingOp{b: b, cb: cb, all: all}
